@@ -335,10 +335,52 @@ def run_source(atom, deep, only=None):
                 if not _res_eq(r, base[op2]):
                     V("result_depends_on_history", site_of(op2), "result differs from the fresh result", [op1, op2])
             ex["states"].add(state_digest())
+    # non-initial states related to this text: the op has already seen a SUCCESSOR of the text (the result of one
+    # rewriting pass of a firing rule, the rule's own fixpoint, format_code's result) - layer added after the seeded change
+    # C05-fix-history-hoisted (a per-rule set of texts seen in earlier calls cut the rule's own iteration short)
+    firing = [o for o in all_ops if o[0] == "rule" and isinstance(base[o], str) and base[o] != src and not base[o].startswith("EXC:")]
+    succ = []
+    for o in firing:
+        one = _one_pass(o[1], src)
+        for u in (one, base[o]):
+            if isinstance(u, str) and u != src and not u.startswith("EXC:") and u not in succ:
+                succ.append(u)
+    fc0 = base.get(("fc", "default"))
+    if isinstance(fc0, str) and fc0 != src and not fc0.startswith("EXC:") and fc0 not in succ:
+        succ.append(fc0)
+    for i, u in enumerate(succ[:8]):
+        for op in firing + ([("fc", "default")] if deep >= 1 or i == 0 else []):
+            boot.clear_caches()
+            apply_op(op, u)
+            r = apply_op(op, src)
+            ex["transitions"] += 2
+            ex["histories"] += 1
+            res["n"] += 1
+            if not _res_eq(r, base[op]):
+                desc = {"atom": atom, "history": [list(op), list(op)], "first_on_successor": i}
+                if only is None or desc == only:
+                    res["viol"].append(violation(site_of(op), "result_depends_on_history",
+                                                 "%s on atom %s after the same call on successor text #%d %r differs from the fresh result" % (op[1], atom, i, u[-60:]), desc))
+        ex["states"].add(state_digest())
     if not res["samples"]:
         res["samples"].append({"source": atom, "history": ["format_code(default)", all_ops[10][1]], "compared_with": "fresh result"})
     ex["states"] = sorted(ex["states"])
     return res
+
+
+def _one_pass(qname, src):
+    """The text after ONE rewriting pass of a rule made with processing.fix (its wrapper iterates up to five)."""
+    from pyrefact import processing
+
+    f, extra = progs.rules()[qname]
+    inner = getattr(f, "_fix_func", None)
+    if inner is None or "root_is_static" in extra or "max_line_length" in extra:
+        return None
+    try:
+        boot.clear_caches()
+        return processing._apply_rewrites(src, processing._schedule_rewrites(src, [[inner, [src], {}]]))
+    except BaseException:  # noqa: BLE001
+        return None
 
 
 def run_d3(first, n=8):
